@@ -191,7 +191,7 @@ mod bk {
             let from1 = !b1.is_null() && xs.as_ptr() == unsafe { (*b1).slots.as_ptr() as *const u8 };
             assert!(from0 || from1); // nothing fabricated: the slice is the slot array of a block of the bucket
             let blk = unsafe { &*(if from0 { b0 } else { b1 }) };
-            let claimed = min(blk.write.load(Ordering::SeqCst), BLOCK_SIZE);
+            let claimed = core::cmp::min(blk.write.load(Ordering::SeqCst), BLOCK_SIZE);
             assert!(blk.is_quiesced()); // never handed out while a claimed slot is unpublished
             assert!(xs.len() == claimed); // every claimed slot is part of the hand-out
             assert!(blk.read.load(Ordering::SeqCst) == mask(claimed));
